@@ -243,3 +243,17 @@ Definition audio_timeline (startNr refT : Z) (entries : list (Z * Z)) (r F a : Z
   do t <- calcAudioTimeFromRef refT r F a;
   do st <- tl_outer entries r F a (refT, t, []);
   let '(_, _, acc) := st in Ok (rev acc).
+
+(** * RepData.sampleDur() (asset.go L710-723), the frame duration generateTimelineEntriesFromRef uses:
+    DefaultSampleDuration (from trex, overwritten by the tfhd default of the last fragment read), else a
+    guess from the codec family and the timescale. [codec]: 0 = "mp4a.40*", 1 = "ac-3*" / "ec-3*",
+    anything else = other. Note that this is not [*rep.ConstantSampleDuration], which createAudioSeg,
+    calcAudioSegRecipe and the admission check of loadAsset use. *)
+Definition rep_sample_dur (dflt codec ts : Z) : Z :=
+  if negb (dflt =? 0) then dflt else
+  if (codec =? 0) && (ts =? 48000) then 1024 else
+  if (codec =? 1) && (ts =? 48000) then 1536 else 0.
+
+(** the audio SegmentTimeline as LiveMPD computes it (livempd.go L256) *)
+Definition mpd_audio_timeline (startNr refT : Z) (entries : list (Z * Z)) (r dflt codec a : Z) : res (list sentry) :=
+  audio_timeline startNr refT entries r (rep_sample_dur dflt codec a) a.
